@@ -52,6 +52,7 @@ func (l *localExecutor) Start(sess *Session) (shutdown func()) {
 
 func (l *localExecutor) Run(task *Task) {
 	simhook.Yield("local.run", func() string { return task.Name.String() })
+	defer simhook.Yield("local.done", func() string { return task.Name.String() })
 	ctx := backgroundcontext.Get()
 	n := 1
 	if task.Pragma.Exclusive() {
